@@ -3,7 +3,7 @@ import CCVerif.Model.Printer
 import CCVerif.Model.WfAst
 import CCVerif.Model.AstQuery
 import CCVerif.Model.Strings
-import CCVerif.Lemmas.ParsePrint
+import CCVerif.Model.PPFragment
 import Driver.AstWire
 import Driver.Util
 /-! Driver ops of C05 (`c05 …`) and C06 (`c06 …`). Each op prints `model<TAB>spec`.
